@@ -168,7 +168,7 @@ def main():
     rep = Report(PID, 'proof', 'CrossHair symbolic execution of the real ps_expr on token lists with symbolic operator selectors vs an independent precedence-climbing parser')
     quick = rep.tier == 'quick'
     from hv import chx
-    chx.run_into(rep, 'c11', per_condition_timeout=800 if quick else 1500)
+    chx.run_into(rep, 'c11', per_condition_timeout=800 if quick else 2400)
     n = 0
     for r in pmap(enum_task, [dict(i=i) for i in range(14)], limit=900):
         rep.absorb(r)
